@@ -48,9 +48,17 @@ impl<'a> Field<'a> {
     }
 
     /// The local that buffers this field's value in generated code.
+    ///
+    /// It is the derive's own name, not the user's spelling, so it does not take the field's
+    /// span: with it, a field called `_marker` would have the local linted as a badly named
+    /// variable of the user's crate.
     pub fn local(&self) -> Ident {
         use syn::ext::IdentExt;
-        quote::format_ident!("__darling_field_{}", self.ident.unraw())
+        quote::format_ident!(
+            "__darling_field_{}",
+            self.ident.unraw(),
+            span = proc_macro2::Span::call_site()
+        )
     }
 
     pub fn as_declaration(&'a self) -> Declaration<'a> {
